@@ -139,19 +139,36 @@ def r1(ctx: Ctx) -> RuleReport:
         rep.violation(f'penman.layout:_interpret_node: {norm(nd.ast)[:80]}', fi.loc(nd.ast),
                       f'{msg}: triples[i] and epidata[i] drift apart, so the POP closing a nested node lands on the wrong '
                       f'triple (decode then encode changes the nesting)')
-    # consumer zips positionally
+    # consumer takes the entries pairwise
+    from ..resolve import expand, local_callees
     it = ctx.repo.func(L, 'interpret')
     zipped = any(isinstance(n, ast.For) and isinstance(n.target, ast.Tuple) and len(n.target.elts) == 2
-                 for n in walk_local(it.node))
+                 for f in local_callees(ctx, it, depth=1) if f.fq != fi.fq for n in walk_local(f.node))
     rep.add('penman.layout:interpret: epidata entries are consumed pairwise (triple, markers)', it.loc(), 'ok' if zipped else 'undecided')
     # the POP goes to the last entry of the nested result
     pops = [n for n in walk_local(fi.node) if isinstance(n, ast.Call) and isinstance(n.func, ast.Attribute) and n.func.attr == 'append'
             and n.args and norm(n.args[0]) in ('POP', 'Pop()')]
-    good = bool(pops) and all(isinstance(p.func.value, ast.Subscript) and isinstance(p.func.value.value, ast.Subscript)
-                              and norm(p.func.value.value.slice) == '-1' and norm(p.func.value.slice) == '1'
-                              and rec.get(norm(p.func.value.value.value), (0, 0))[1] == 2 for p in pops)
-    rep.add('penman.layout:_interpret_node: POP is attached to the last epidata entry of the nested node', fi.loc(),
-            'ok' if good else 'undecided', '' if good else f'{[norm(p)[:50] for p in pops]}')
+    if not pops:
+        rep.undecided('penman.layout:_interpret_node: POP is attached to the last epidata entry of the nested node', fi.loc(), 'no POP is appended')
+    for p in pops:
+        recv = expand(ctx, fi, p.func.value, p)
+        key = 'penman.layout:_interpret_node: POP is attached to the last epidata entry of the nested node'
+        base = recv.value.value if isinstance(recv, ast.Subscript) and isinstance(recv.value, ast.Subscript) else None
+        shape = base is not None and (rec.get(norm(base), (0, 0))[1] == 2 or (
+            isinstance(base, ast.Subscript) and isinstance(base.value, ast.Call) and norm(base.value.func) == fi.name
+            and try_fold(base.slice) == (True, 2)))
+        if not shape:
+            rep.undecided(key, fi.loc(p), norm(recv)[:60])
+            continue
+        ok_i, idx = try_fold(recv.value.slice)
+        ok_j, slot = try_fold(recv.slice)
+        if ok_i and ok_j and (idx, slot) == (-1, 1):
+            rep.ok(key, fi.loc(p), norm(recv))
+        elif ok_i and ok_j and isinstance(idx, int) and slot == 1:
+            rep.violation(key, fi.loc(p), f'POP is appended to entry [{idx}] of the nested node\'s epidata, not to its last entry: '
+                          f'the node is closed after the wrong triple whenever it has more than one')
+        else:
+            rep.undecided(key, fi.loc(p), norm(recv)[:60])
     return rep
 
 
@@ -277,9 +294,17 @@ def r36(ctx: Ctx) -> RuleReport:
                 'ok' if good else 'undecided',
                 '' if good else ('not in the nested arm; ' if not nested else '') + ('can be skipped; ' if skip else '') + ('can repeat' if again else ''))
     if len(pushes) == 1:
+        from ..resolve import expand
         pa = pushes[0].args[0].args[0] if pushes[0].args[0].args else None
-        rep.add('penman.layout:_interpret_node: Push names the variable of the nested node', fi.loc(pushes[0]),
-                'ok' if pa is not None and norm(pa) == f'{tgt}[0]' else 'undecided', norm(pushes[0]))
+        pax = norm(expand(ctx, fi, pa, pushes[0])) if pa is not None else None
+        loopvar = norm(loop.target.elts[0]) if isinstance(loop.target, ast.Tuple) else None
+        key = 'penman.layout:_interpret_node: Push names the variable of the nested node'
+        if pax == f'{tgt}[0]':
+            rep.ok(key, fi.loc(pushes[0]), norm(pushes[0]))
+        elif pax in ('var', f'{fi.positional[0]}[0]') or (pax is not None and pax == loopvar):
+            rep.violation(key, fi.loc(pushes[0]), f'Push({pax}) names the enclosing node (or the role), not the nested node {tgt}[0]')
+        else:
+            rep.undecided(key, fi.loc(pushes[0]), norm(pushes[0]))
     # (b) reader: _preconfigure queues one POP per Pop marker, after the triple
     pc = repo.func(L, '_preconfigure')
     cfg2 = CFG(pc.node)
@@ -484,25 +509,41 @@ def r26(ctx: Ctx) -> RuleReport:
     rep.add('penman.layout:rearrange.sort_key: key is (attributes-first criterion, key(role of the branch))', sk.loc(),
             'ok' if good else 'undecided')
     # reconfigure: the only operation on the copied triples is a keyed stable sort
+    from ..resolve import local_callees
     rc = ctx.repo.func(L, 'reconfigure')
+    rc_funcs = [f for f in local_callees(ctx, rc, depth=1) if f.qualname != 'configure']
     muts = []
-    for n in walk_local(rc.node):
-        if isinstance(n, ast.Call) and isinstance(n.func, ast.Attribute) and norm(n.func.value).endswith('.triples'):
-            muts.append(n)
-        if isinstance(n, (ast.Assign, ast.AugAssign, ast.Delete)):
-            tg = n.targets if isinstance(n, (ast.Assign, ast.Delete)) else [n.target]
-            for t in tg:
-                if '.triples' in norm(t):
-                    muts.append(n)
-    good = len(muts) == 1 and isinstance(muts[0], ast.Call) and muts[0].func.attr == 'sort' and \
-        not any(k.arg == 'reverse' and try_fold(k.value) != (True, False) for k in muts[0].keywords)
-    rep.add('penman.layout:reconfigure: triples are only reordered by list.sort(key=...) (stable)', rc.loc(), 'ok' if good else 'undecided',
-            '' if good else f'{[norm(m)[:50] for m in muts]}')
-    kf = ctx.repo.maybe_func(L, 'reconfigure._key')
-    if kf is not None:
-        r = [n for n in walk_local(kf.node) if isinstance(n, ast.Return)]
-        good = len(r) == 1 and norm(r[0].value) == f'key({kf.positional[0]}[1])'
-        rep.add('penman.layout:reconfigure._key: triples are ordered by key(role)', kf.loc(), 'ok' if good else 'undecided')
+    for f in rc_funcs:
+        for n in walk_local(f.node):
+            if isinstance(n, ast.Call) and isinstance(n.func, ast.Attribute) and norm(n.func.value).endswith('.triples'):
+                muts.append((f, n))
+            if isinstance(n, (ast.Assign, ast.AugAssign, ast.Delete)):
+                tg = n.targets if isinstance(n, (ast.Assign, ast.Delete)) else [n.target]
+                for t in tg:
+                    if '.triples' in norm(t):
+                        muts.append((f, n))
+    key = 'penman.layout:reconfigure: triples are only reordered by list.sort(key=...) (stable)'
+    if not muts:
+        rep.undecided(key, rc.loc(), 'no operation on the triples of the copy found')
+    for f, m in muts:
+        if isinstance(m, ast.Call) and m.func.attr == 'sort':
+            rev = [k for k in m.keywords if k.arg == 'reverse' and try_fold(k.value) != (True, False)]
+            rep.add(key, f.loc(m), 'violation' if rev else 'ok', f'{norm(m)[:60]} sorts in reverse: ties no longer keep their original order' if rev else '')
+            kw = next((k.value for k in m.keywords if k.arg == 'key'), None)
+            kf = None
+            if isinstance(kw, ast.Name):
+                kf = ctx.repo.maybe_func(L, f'{f.qualname}.{kw.id}')
+            if kf is not None:
+                r = [n for n in walk_local(kf.node) if isinstance(n, ast.Return)]
+                good = len(r) == 1 and norm(r[0].value) == f'key({kf.positional[0]}[1])'
+                rep.add(f'penman.layout:{kf.qualname}: triples are ordered by key(role)', kf.loc(), 'ok' if good else 'undecided')
+            elif isinstance(kw, ast.Lambda):
+                good = norm(kw.body) == f'key({kw.args.args[0].arg}[1])'
+                rep.add('penman.layout:reconfigure: triples are ordered by key(role)', f.loc(m), 'ok' if good else 'undecided')
+        elif isinstance(m, ast.Call) and m.func.attr in ('reverse', 'pop', 'remove', 'clear', 'insert', 'append', 'extend'):
+            rep.violation(key, f.loc(m), f'{norm(m)[:60]} changes the triple list other than by a stable sort')
+        else:
+            rep.undecided(key, f.loc(m), norm(m)[:60])
     return rep
 
 
@@ -514,9 +555,11 @@ def r27(ctx: Ctx) -> RuleReport:
     epi = ctx.repo.cls('penman.epigraph', 'Epidatum')
     others = [c for c in ctx.repo.subclasses(epi) if not c.is_subclass_of(ctx.repo.cls(L, 'LayoutMarker'))] \
         if 'LayoutMarker' in ctx.repo.module(L).classes else []
-    comps = [n for n in walk_local(rc.node) if isinstance(n, ast.ListComp)]
+    from ..resolve import local_callees
+    rc_funcs = [f for f in local_callees(ctx, rc, depth=1) if f.qualname != 'configure']
+    comps = [(f, n) for f in rc_funcs for n in walk_local(f.node) if isinstance(n, ast.ListComp)]
     found = False
-    for c in comps:
+    for f, c in comps:
         for g in c.generators:
             for cond in g.ifs:
                 inner = cond.operand if isinstance(cond, ast.UnaryOp) and isinstance(cond.op, ast.Not) else None
@@ -526,7 +569,7 @@ def r27(ctx: Ctx) -> RuleReport:
                     classes = []
                     for x in names:
                         if isinstance(x, ast.Name):
-                            r = ctx.repo.resolve_name(rc.module, x.id)
+                            r = ctx.repo.resolve_name(f.module, x.id)
                             if r[0] == 'class':
                                 classes.append(r[2])
                     covers_push = any(push.is_subclass_of(k) for k in classes)
@@ -534,17 +577,19 @@ def r27(ctx: Ctx) -> RuleReport:
                     hits_other = [o.name for o in ctx.repo.subclasses(epi) + [epi]
                                   if not (o.is_subclass_of(push) or o.is_subclass_of(pop) or o.name == 'LayoutMarker')
                                   and any(o.is_subclass_of(k) for k in classes)]
-                    rep.add('penman.layout:reconfigure: Push and Pop markers are removed', rc.loc(c),
-                            'ok' if covers_push and covers_pop else 'undecided',
-                            '' if covers_push and covers_pop else f'filter class(es) {[k.name for k in classes]}')
-                    rep.add('penman.layout:reconfigure: no other marker class is removed', rc.loc(c),
+                    missing = [n for n, cv in (('Push', covers_push), ('Pop', covers_pop)) if not cv]
+                    rep.add('penman.layout:reconfigure: Push and Pop markers are removed', f.loc(c),
+                            'ok' if not missing else ('violation' if classes else 'undecided'),
+                            '' if not missing else f'the filter removes {[k.name for k in classes]} only: {missing} markers of the old layout survive '
+                                                   f'and steer the new configuration')
+                    rep.add('penman.layout:reconfigure: no other marker class is removed', f.loc(c),
                             'ok' if not hits_other else 'violation',
                             '' if not hits_other else f'also removes {hits_other}: alignments would be lost')
                     elt_ok = isinstance(c.elt, ast.Name) and isinstance(g.target, ast.Name) and c.elt.id == g.target.id
-                    rep.add('penman.layout:reconfigure: kept markers are kept as they are', rc.loc(c), 'ok' if elt_ok else 'undecided')
+                    rep.add('penman.layout:reconfigure: kept markers are kept as they are', f.loc(c), 'ok' if elt_ok else 'undecided')
     if not found:
         rep.undecided('penman.layout:reconfigure: layout markers are filtered by isinstance', rc.loc(), 'no `not isinstance(epi, <class>)` filter')
-    loops = [n for n in walk_local(rc.node) if isinstance(n, ast.For) and norm(n.iter).endswith('.epidata.values()')]
+    loops = [n for f in rc_funcs for n in walk_local(f.node) if isinstance(n, ast.For) and norm(n.iter).endswith('.epidata.values()')]
     rep.add('penman.layout:reconfigure: every marker list of the copy is filtered', rc.loc(), 'ok' if loops else 'undecided')
     return rep
 
@@ -599,12 +644,37 @@ def r44(ctx: Ctx) -> RuleReport:
                 fi.loc(r.ast), 'violation' if bad_path else 'ok',
                 'an edge can be answered "not inverted" without looking at the node contexts: an inverted re-entrancy written '
                 'directly under the top (or under any node that was never pushed) is misreported' if bad_path else '')
-    # Push present: answer is `pushed variable == source`
-    rets = [n for n in walk_local(fi.node) if isinstance(n, ast.Return) and isinstance(n.value, ast.Compare)]
-    good = any(norm(r.value) in (f'variable == {tp}[0]', f'{tp}[0] == variable') for r in rets)
-    rep.add('penman.layout:appears_inverted: with a Push marker the answer is (pushed variable == source)', fi.loc(), 'ok' if good else 'undecided')
-    good2 = any(norm(r.value) in (f'{tp}[2] == variable', f'variable == {tp}[2]') for r in rets)
-    rep.add('penman.layout:appears_inverted: without one the answer is (node context == target)', fi.loc(), 'ok' if good2 else 'undecided')
+    # Push present: answer is `pushed variable == source`; otherwise `node context == target`
+    from ..resolve import expand
+    rets = [n for n in walk_local(fi.node) if isinstance(n, ast.Return) and isinstance(n.value, ast.Compare)
+            and len(n.value.ops) == 1 and isinstance(n.value.ops[0], ast.Eq)]
+    ctxvar = norm(ctx_loop.target.elts[0]) if isinstance(ctx_loop.target, ast.Tuple) and ctx_loop.target.elts else None
+    seen_push = seen_ctx = False
+    for r in rets:
+        sides = [r.value.left, r.value.comparators[0]]
+        ex = [norm(expand(ctx, fi, x, r)) for x in sides]
+        raw = [norm(x) for x in sides]
+        in_loop = any(x is r for x in ast.walk(ctx_loop))
+        slot = next((x for x in raw if x.startswith(f'{tp}[')), None)
+        other = next((e for e, x in zip(ex, raw) if x != slot), None)
+        if slot is None or other is None:
+            continue
+        if not in_loop and other.startswith('get_pushed_variable('):
+            seen_push = True
+            rep.add('penman.layout:appears_inverted: with a Push marker the answer is (pushed variable == source)', fi.loc(r),
+                    'ok' if slot == f'{tp}[0]' else 'violation',
+                    '' if slot == f'{tp}[0]' else f'the pushed variable is compared with {slot}: a triple whose target was pushed (the normal, '
+                                                  f'uninverted case) is reported as inverted')
+        elif in_loop and ctxvar is not None and any(x == ctxvar for x in raw):
+            seen_ctx = True
+            rep.add('penman.layout:appears_inverted: without one the answer is (node context == target)', fi.loc(r),
+                    'ok' if slot == f'{tp}[2]' else 'violation',
+                    '' if slot == f'{tp}[2]' else f'the node context is compared with {slot}: a triple written under its own source '
+                                                  f'(the normal case) is reported as inverted')
+    if not seen_push:
+        rep.undecided('penman.layout:appears_inverted: with a Push marker the answer is (pushed variable == source)', fi.loc())
+    if not seen_ctx:
+        rep.undecided('penman.layout:appears_inverted: without one the answer is (node context == target)', fi.loc())
     return rep
 
 
@@ -617,6 +687,13 @@ def r47(ctx: Ctx) -> RuleReport:
     pm = ctx.repo.parent_map(fi.node)
     sorts = [n for n in walk_local(fi.node) if isinstance(n, ast.Call) and isinstance(n.func, ast.Attribute)
              and n.func.attr in ('sort', 'reverse') and norm(n.func.value).endswith('.triples')]
+    from ..resolve import calls_where
+
+    def sorts_triples(f: FuncInfo) -> bool:
+        return f.qualname != 'configure' and any(
+            isinstance(n, ast.Call) and isinstance(n.func, ast.Attribute) and n.func.attr in ('sort', 'reverse')
+            and norm(n.func.value).endswith('.triples') for n in walk_local(f.node))
+    sorts += calls_where(ctx, fi, sorts_triples, depth=1)
     confs = [c for c, ts in ctx.cg.calls_in(fi) if any(t.kind == 'func' and t.func.qualname == 'configure' for t in ts)]
     if not confs:
         raise AnalysisError('reconfigure no longer calls configure')
